@@ -89,13 +89,15 @@ def main():
             result = {}
             for prop in props:
                 t0 = time.time()
-                rc, out = sh("VERIF_REPO=%s ./check %s --tier %s" % (wt, prop, tier), cwd=ROOT, timeout=7200)
+                seedarg = (" --seed %s" % os.environ["SEEDRUN_SEED"]) if os.environ.get("SEEDRUN_SEED") else ""
+                rc, out = sh("VERIF_REPO=%s ./check %s --tier %s%s" % (wt, prop, tier, seedarg), cwd=ROOT, timeout=7200)
                 vio = [l for l in out.splitlines() if l.startswith("VIOLATION")]
                 result[prop] = dict(rc=rc, violations=vio[:5], caught=bool(vio), wall_s=round(time.time() - t0, 1), tail=out.strip().splitlines()[-3:])
                 print(name, prop, "CAUGHT" if vio else "missed", vio[:1])
             result["at"] = time.strftime("%Y-%m-%dT%H:%M:%SZ", time.gmtime())
             result["tier"] = tier
-            json.dump(result, open(os.path.join(d, "result.json"), "w"), indent=1)
+            rname = "result.json" if not os.environ.get("SEEDRUN_SEED") else "result-seed%s.json" % os.environ["SEEDRUN_SEED"]
+            json.dump(result, open(os.path.join(d, rname), "w"), indent=1)
     finally:
         sh("git -C /repo worktree remove --force %s" % wt)
         shutil.rmtree(wt, ignore_errors=True)
